@@ -27,7 +27,9 @@ BASE_POOL = [0, 1, -3, 2.5, -0.0, True, [1, 2], [0.5]]
 # front end that materialises FLOAT first and casts afterwards is distinguishable beside a DOUBLE sibling
 EXTRA_POOL = [0.1]
 POOL = BASE_POOL + EXTRA_POOL
-PAIR_POOL = BASE_POOL + [0.0, 1.0, [0.0], [-0.0], [1], [True]]
+# [1, 1] / [0, -1]: two-element int lists whose tuple equals a (value, sign) pair of a scalar float (1.0, -0.0) - a
+# cache keyed by such pairs handed the scalar's tensor to the list (defect introduced and repaired in GraphBuilder)
+PAIR_POOL = BASE_POOL + [0.0, 1.0, [0.0], [-0.0], [1], [True], [1, 1], [0, -1]]
 
 # short name -> (onnx type string, onnxscript annotation / ir.DataType name, numpy dtype)
 DTYPES = {
